@@ -256,7 +256,8 @@ def write_evidence(eng, prop, tier, seed, targets, records, problems, known_hits
     if prop == 'all':
         return
     from . import smt
-    n = len(records)
+    known_names = {id(r) for _, r in known_hits}
+    n = sum(1 for r in records if id(r) not in known_names)      # obligations not explained by a listed known finding
     d = sum(1 for r in records if r['status'] == 'discharged')
     kinds = {}
     backends = {}
@@ -290,6 +291,7 @@ def write_evidence(eng, prop, tier, seed, targets, records, problems, known_hits
                              for r in records if r['status'] != 'discharged'],
             'out_of_reach': [{'function': p[0], 'why': p[2]} for p in problems],
             'known_findings': sorted({f['id'] for f, _ in known_hits}),
+            'known_finding_obligations': sorted({r['name'] for _, r in known_hits}),
             'samples': samples,
             'bounded': [],
         },
